@@ -36,6 +36,10 @@ class Indenter(PostLex, ABC):
 
         yield token
 
+        if '\n' not in token:
+            # e.g. a comment at the very end of the input: no new line has been started
+            return
+
         indent_str = token.rsplit('\n', 1)[1] # Tabs and spaces
         indent = indent_str.count(' ') + indent_str.count('\t') * self.tab_len
 
